@@ -85,7 +85,18 @@ def build(case, log):
         # the two resources differ in which fields the name pattern selects (f2 is called h2 in the first one)
         ofields = [dict(f, name='h2') if f['name'] == 'f2' else f for f in copy.deepcopy(fields)]
         other_rows = [{('h2' if k == 'f2' else k): v for k, v in r.items()} for r in other_rows]
+    if case.get('missing'):
+        # the table declares its own missing-value tokens; such a cell is null, not an error
+        for rws in (rows, other_rows):
+            for r in rws:
+                for f in list(r):
+                    if f.startswith('f') or f == 'h2':
+                        if r[f] is None:
+                            r[f] = 'n/a'
     st = mkstate([('other', ofields, other_rows), ('t', fields, rows)])
+    if case.get('missing'):
+        for r in st.desc['resources']:
+            r['schema']['missingValues'] = ['', 'n/a', '-']
 
     def handler4(keep):
         def h(res_name, row, i, e):
@@ -133,12 +144,13 @@ def selected_resources(case):
 def model(case, rows, resname):
     """Returns dict(raise=(index, rowid) | None, out=[rows], calls=[...])."""
     checked = checked_fields(tuple(case['name'])) if case['via'] == 'set_type' else ['f1', 'f2', 'f.']
+    mv = ['', 'n/a', '-'] if case.get('missing') else ['']
     if case['type'] in MIXED:
-        fobj = {f: tableschema.Field(dict(MIXED[case['type']][f], name=f, format='default'), missing_values=['']) for f in ('f1', 'f2', 'f.')}
+        fobj = {f: tableschema.Field(dict(MIXED[case['type']][f], name=f, format='default'), missing_values=mv) for f in ('f1', 'f2', 'f.')}
     else:
         t = TYPES[case['type']]
         fd = dict(t['opts'], name='x', format=t['opts'].get('format', 'default'))
-        fobj = {f: tableschema.Field(fd, missing_values=['']) for f in ('f1', 'f2', 'f.')}
+        fobj = {f: tableschema.Field(fd, missing_values=mv) for f in ('f1', 'f2', 'f.')}
     policy = case['policy']
     out, calls = [], []
     if case['via'] == 'validate' and rows and 'h2' in rows[0]:
@@ -175,7 +187,7 @@ def check(case):
     log = []
     label = '%s(%s, type=%s, policy=%s%s%s) on cell classes %r' % (
         case['via'], case.get('name', ''), case['type'], case['policy'],
-        ', resources=%r' % case['resources'] if 'resources' in case else '', ', transform' if case.get('transform') else '' + (', consumed by a step that requests all resources first' if case.get('eager') else ''),
+        ', resources=%r' % case['resources'] if 'resources' in case else '', ', transform' if case.get('transform') else '' + (', consumed by a step that requests all resources first' if case.get('eager') else '') + (', schema missingValues ["", "n/a", "-"]' if case.get('missing') else ''),
         case['pattern'])
     try:
         st, rows, other_rows, step = build(case, log)
@@ -292,6 +304,11 @@ def cases(tier):
                 out.append({'via': 'set_type', 'type': tname, 'policy': pol, 'pattern': pat, 'name': ['f.', True], 'resources': 't'})
                 out.append({'via': 'set_type', 'type': tname, 'policy': pol, 'pattern': pat, 'name': ['f.', True], 'transform': True})
                 out.append({'via': 'validate', 'type': tname, 'policy': pol, 'pattern': pat, 'resources': 't'})
+                if any('n' in p for p in pat):
+                    out.append({'via': 'set_type', 'type': tname, 'policy': pol, 'pattern': pat, 'name': ['f.', True], 'missing': True})
+                    out.append({'via': 'validate', 'type': tname, 'policy': pol, 'pattern': pat, 'missing': True})
+                if tier == 'quick' and tname not in ('integer', 'date', 'string'):
+                    continue          # quick: the remaining axes on three of the seven types
                 out.append({'via': 'set_type', 'type': tname, 'policy': pol, 'pattern': pat, 'name': ['f.', True], 'resources': None, 'eager': True})
                 out.append({'via': 'set_type', 'type': tname, 'policy': pol, 'pattern': pat, 'name': ['f1', True], 'resources': None, 'eager': True})
                 out.append({'via': 'validate', 'type': tname, 'policy': pol, 'pattern': pat, 'eager': True})
